@@ -53,7 +53,7 @@ fn pkg_c() -> RegPackage {
   }
 }
 
-pub const N_SCENARIOS: usize = 15;
+pub const N_SCENARIOS: usize = 16;
 
 pub fn scenario(i: usize) -> Scenario {
   let u = |s: &str| url(s);
@@ -272,6 +272,24 @@ pub fn scenario(i: usize) -> Scenario {
       s.describe = json!({"root": "import jsr:@s/c@^1; import ./a.ts (-> ./a2.ts -> jsr:@s/c@^2); import ./w.ts", "registry": "@s/c 1.0.0 1.0.1 1.0.2 1.0.3 2.0.0 2.1.0", "cached_package_metadata": "stale: knows 1.0.0 only; a cache-bypassing load sees all versions"});
       s
     }
+    15 => {
+      let mut s = base(
+        "pre-release-versions-of-one-release",
+        &[],
+        &["https://x/root.ts"],
+      );
+      s.install = Box::new(|l| {
+        l.add_text("https://x/root.ts", "import \"jsr:@s/p@^1.0.0-beta.1\";\nimport \"jsr:@s/p@1.0.0-beta.2\";\n");
+        RegPackage {
+          name: "@s/p".into(),
+          versions: ["1.0.0-beta.1", "1.0.0-beta.2", "1.0.0-beta.10", "1.0.0-rc.1"].iter().map(|v| RegVersion::new(v, &[("/mod.ts", "export const p = 1;\n")])).collect(),
+          raw_meta: None,
+        }
+        .install(l);
+      });
+      s.describe = json!({"root": "import jsr:@s/p@^1.0.0-beta.1; import jsr:@s/p@1.0.0-beta.2", "registry": "@s/p 1.0.0-beta.1 1.0.0-beta.2 1.0.0-beta.10 1.0.0-rc.1 (the version map of the metadata iterates in every order)"});
+      s
+    }
     _ => unreachable!(),
   }
 }
@@ -311,8 +329,13 @@ pub fn run_build_susp(s: &Scenario, mode: SchedMode, queued: bool, ch: &Ch, hook
   let q = QueuedExecutor(sched.clone());
   if hook {
     let ch2 = ch.clone();
+    let explore_version_map = s.name.starts_with("pre-release");
     deno_graph::verif_hooks::set_drain_order_callback(Some(Box::new(move |site, n| {
-      let label: &'static str = match site { "deferred" => "drain_deferred", "probe_candidates" => "order_of_probe_candidates", _ => "drain_dynamic_branches" };
+      // the version map of the registry metadata is only explored where it can matter (pre-release scenario)
+      if site == "package_versions" && !explore_version_map {
+        return (0..n).collect();
+      }
+      let label: &'static str = match site { "deferred" => "drain_deferred", "probe_candidates" => "order_of_probe_candidates", "package_versions" => "iteration_order_of_the_version_map", _ => "drain_dynamic_branches" };
       ch2.permutation(label, n, true)
     })));
     crate::obs::CALLER_OWNS_ORDER.with(|c| c.set(true));
@@ -441,6 +464,9 @@ fn body_worlds(space: crate::world::Space) -> impl Fn(&Ch) -> Run + Sync + Send 
       if hook {
         let ch2 = ch.clone();
         deno_graph::verif_hooks::set_drain_order_callback(Some(Box::new(move |site, n| {
+          if site == "package_versions" {
+            return (0..n).collect();
+          }
           let label: &'static str = match site { "deferred" => "drain_deferred", "probe_candidates" => "order_of_probe_candidates", _ => "drain_dynamic_branches" };
           ch2.permutation(label, n, true)
         })));
@@ -487,7 +513,7 @@ pub fn prop(tier: Tier) -> Prop {
   let parts = match tier {
     Tier::Quick => vec![Part {
       name: "schedules",
-      body: Box::new(body(vec![0, 1, 2, 3, 4, 5, 6, 8, 9, 10, 11, 12, 14], false)),
+      body: Box::new(body(vec![0, 1, 2, 3, 4, 5, 6, 8, 9, 10, 11, 12, 14, 15], false)),
       modes: vec![Mode::Full],
       what: "every completion order of the gated loader futures and every drain order of the builder's hash maps, inline executor",
     },
@@ -518,7 +544,7 @@ pub fn prop(tier: Tier) -> Prop {
     Tier::Thorough => vec![
       Part {
         name: "schedules",
-        body: Box::new(body(vec![0, 1, 2, 3, 4, 5, 6, 8, 9, 10, 11, 12, 14], false)),
+        body: Box::new(body(vec![0, 1, 2, 3, 4, 5, 6, 8, 9, 10, 11, 12, 14, 15], false)),
         modes: vec![Mode::Full],
         what: "every completion order and every drain order, inline executor",
       },
